@@ -425,3 +425,48 @@ def r13_g(ctx):
     else:
         raise AnalysisError('TexNode.position is no longer a property')
     return rr
+
+
+def r13_h(ctx):
+    """offsets are converted against the source that was parsed"""
+    repo = ctx.repo
+    from .model import resolve_locals
+    rr = RuleResult('R13.h', 'the line/column table of a document is built from the very string that was categorised: read() '
+                    'returns that string next to the root, and TexSoup() hands it to the root node as `src`', floor=2)
+    rd = repo.need_func('tex.read')
+    cat = [n for n in ast.walk(rd.node) if isinstance(n, ast.Call) and isinstance(n.func, ast.Name) and n.func.id == 'categorize']
+    if not cat or not cat[0].args:
+        raise AnalysisError('tex.read: the call of categorize vanished')
+    fed = norm(resolve_locals(rd.node, cat[0].args[0]))
+    rets = [n for n in ast.walk(rd.node) if isinstance(n, ast.Return) and n.value is not None]
+    for r in rets:
+        v = resolve_locals(rd.node, r.value)
+        ok = isinstance(v, ast.Tuple) and len(v.elts) == 2 and norm(v.elts[1]) == fed
+        # the plain (unresolved) name is accepted too when it is the categorised variable
+        if not ok and isinstance(r.value, ast.Tuple) and len(r.value.elts) == 2 and norm(r.value.elts[1]) == norm(cat[0].args[0]):
+            ok = True
+        rr.ob(ok, {'read_returns': norm(r.value)[:60], 'categorised': fed[:40]})
+        if not ok:
+            rr.fail(Finding('R13.h', 'tex', rd.qual, r, 'read() does not return the categorised source string as its second '
+                            'result: offsets would be converted against another text', line=r.lineno))
+    ep = repo.need_func('__init__.TexSoup')
+    rcalls = [n for n in ast.walk(ep.node) if isinstance(n, ast.Call) and isinstance(n.func, ast.Name) and n.func.id == 'read']
+    ncalls = [n for n in ast.walk(ep.node) if isinstance(n, ast.Call) and isinstance(n.func, ast.Name) and n.func.id == 'TexNode']
+    if not rcalls or not ncalls:
+        raise AnalysisError('TexSoup(): read / TexNode call vanished')
+    second = None
+    for a in ast.walk(ep.node):
+        if isinstance(a, ast.Assign) and a.value is rcalls[0] and isinstance(a.targets[0], ast.Tuple) and len(a.targets[0].elts) == 2 \
+                and isinstance(a.targets[0].elts[1], ast.Name):
+            second = a.targets[0].elts[1].id
+    for c in ncalls:
+        srcarg = next((k.value for k in c.keywords if k.arg == 'src'), c.args[1] if len(c.args) > 1 else None)
+        stores = sum(1 for x in ast.walk(ep.node) if isinstance(x, ast.Name) and x.id == second and isinstance(x.ctx, ast.Store))
+        ok = second is not None and isinstance(srcarg, ast.Name) and srcarg.id == second and stores == 1
+        rr.ob(ok, {'root_node_src': norm(srcarg) if srcarg is not None else None})
+        if not ok:
+            rr.fail(Finding('R13.h', '__init__', ep.qual, c, 'the root node is not given the parsed source string as `src` (%s): '
+                            'char_pos_to_line converts offsets against a different text (e.g. the re-serialised document, which '
+                            'lacks the whitespace dropped before arguments)' % (norm(srcarg) if srcarg is not None else 'missing'),
+                            line=c.lineno))
+    return rr
